@@ -16,6 +16,8 @@ running sub-search may put queries (to the same or another optimizer object, thr
 * `register_first_counterexample` (`decide`) — with the registration of the sub-optimizer moved in
   front of `opt.search` (seeded change C16-r2-2) the outer query of a depth-1 nesting gets the
   nested query's tree; the same history on the real order is right.
+* `nested_no_spurious_errors` — if every sub-search anywhere in the nesting trees has a successful
+  trial and `cache_only` is off, no call (outer or nested) raises, for every schedule.
 * `nested_path_isolation` — the path interface (`__call__`): if the hash separates the
   contractions that are asked (`Keyed`), the path returned to any query, outer or nested, was
   found by a search on that query's contraction.  `path_collision_counterexample`: without the
@@ -740,5 +742,484 @@ example :
     ((s.threads 0).results.map fun r => (r.q.net, r.depth, r.got)) = [(2, 1, some 2), (1, 0, some 1)] ∧
     ((s.threads 1).results.map fun r => (r.q.net, r.depth, r.got)) = [(1, 1, some 1), (2, 0, some 2)] := by
   decide
+
+/-! ## no spurious errors under nesting -/
+
+def Fin (tp : TrialPlan) : Prop := slt tp.2.2.score none = true
+
+/-- every sub-search anywhere in the nesting tree has a successful trial, and successful trials
+    carry trees -/
+inductive GoodTree : QTree → Prop
+  | node {q : Query} {kind : Mode} {obj : Nat} {v : Bool} {trials : List TrialPlan} :
+      (∃ tp ∈ trials, Fin tp) → (∀ tp ∈ trials, Fin tp → tp.2.2.tree.isSome = true) →
+      (∀ tp ∈ trials, ∀ c ∈ tp.1, GoodTree c) → GoodTree (.node q kind obj v trials)
+
+/-- the trials still to run: successful ones carry trees, nested queries are good -/
+def TodoOk (l : List TrialPlan) : Prop :=
+  (∀ tp ∈ l, Fin tp → tp.2.2.tree.isSome = true) ∧ (∀ tp ∈ l, ∀ c ∈ tp.1, GoodTree c)
+
+/-- the best record, if there is one, carries a tree -/
+def BestHasTree (opt : HState) : Prop := ∀ b, opt.best = some b → b.trial.tree.isSome = true
+
+theorem bestHasTree_init : BestHasTree HState.init := by
+  intro b h; simp [HState.init] at h
+
+theorem slt_none_of_slt {a b : Score} (h : slt a b = true) : slt a none = true := by
+  cases a <;> cases b <;> simp_all [slt]
+
+theorem step_best (q : Query) (opt : HState) (s : Setting) (tr : Trial)
+    (hb : BestHasTree opt) (ht : slt tr.score none = true → tr.tree.isSome = true) :
+    BestHasTree (runLog opt (stamp q [(s, tr)])) ∧
+      ((opt.best.isSome = true ∨ slt tr.score none = true) →
+        (runLog opt (stamp q [(s, tr)])).best.isSome = true) := by
+  have hrun : runLog opt (stamp q [(s, tr)])
+      = complete opt s { tr with tree := tr.tree.map fun _ => q.net } := rfl
+  rw [hrun]
+  have hbest := complete_best opt s { tr with tree := tr.tree.map fun _ => q.net }
+  refine ⟨?_, ?_⟩
+  · intro b hbb
+    rw [hbest] at hbb
+    split at hbb
+    · rename_i hlt
+      cases hbb
+      simp only [Option.isSome_map]
+      exact ht (slt_none_of_slt hlt)
+    · exact hb b hbb
+  · intro hor
+    rw [hbest]
+    split
+    · rfl
+    · rename_i hlt
+      rcases hor with h | h
+      · exact h
+      · -- a finite score that is not below the current best: there is a current best
+        cases hbo : opt.best with
+        | some b => rfl
+        | none =>
+          exfalso
+          apply hlt
+          simp only [HState.curBest, hbo]
+          exact h
+
+/-- the object holds, in slot `t`, an optimizer with a tree -/
+def RegLive (t : Nat) (r : NRState) : Prop :=
+  ∃ id opt, r.subopts t = some (id, opt) ∧ opt.tree.isSome = true
+
+def CacheHas (r : NRState) (q : Query) (missing : Bool) : Prop :=
+  missing = false → (r.cache q.key).isSome = true
+
+/-- thread-local facts of a frame inside its sub-search -/
+def SearchLive (opt : HState) (todo : List TrialPlan) : Prop :=
+  BestHasTree opt ∧ TodoOk todo ∧ (opt.best.isSome = true ∨ ∃ tp ∈ todo, Fin tp)
+
+def FrameGood (fr : Frame) : Prop :=
+  (∃ tp ∈ fr.trials, Fin tp) ∧ TodoOk fr.trials
+
+/-- what the innermost frame needs in order not to raise -/
+def TopLive (t : Nat) (r : NRState) (fr : Frame) : Prop :=
+  match fr.pc with
+  | .start => FrameGood fr
+  | .gotOpt => FrameGood fr
+  | .hashed m => FrameGood fr ∧ CacheHas r fr.q m
+  | .searching m _ opt todo => SearchLive opt todo ∧ CacheHas r fr.q m
+  | .ran m _ opt => opt.tree.isSome = true ∧ CacheHas r fr.q m
+  | .stored m _ => CacheHas r fr.q m ∧ RegLive t r
+  | .compare _ _ => RegLive t r
+  | .have true _ => RegLive t r
+  | .have false _ => True
+
+/-- a frame below the innermost one: inside a trial, no demands on shared state except that the
+    cache entry it saw stays -/
+def BelowLive (objs : Nat → NRState) (fr : Frame) : Prop :=
+  ∃ m id opt todo, fr.pc = .searching m id opt todo ∧ SearchLive opt todo ∧ CacheHas (objs fr.obj) fr.q m
+
+
+def LiveOk (t : Nat) (objs : Nat → NRState) (fr : Frame) : Outcome → Prop
+  | .cont _ fr' r' _ => TopLive t r' fr' ∧ fr'.obj = fr.obj
+  | .push fr' c => BelowLive objs fr' ∧ GoodTree c ∧ fr'.obj = fr.obj
+  | .pop _ res _ => res.isSome = true
+
+theorem cacheHas_isNone (r : NRState) (q : Query) : CacheHas r q (r.cache q.key).isNone := by
+  intro h
+  cases hc : r.cache q.key <;> simp_all
+
+theorem writeThrough_cache (r : NRState) (t id : Nat) (opt : HState) :
+    (writeThrough r t id opt).cache = r.cache := by
+  unfold writeThrough
+  split
+  · split <;> rfl
+  · rfl
+
+theorem todoOk_tail {tp : TrialPlan} {rest : List TrialPlan} (h : TodoOk (tp :: rest)) : TodoOk rest :=
+  ⟨fun x hx => h.1 x (List.mem_cons_of_mem _ hx), fun x hx => h.2 x (List.mem_cons_of_mem _ hx)⟩
+
+theorem tree_of_best {opt : HState} (hb : BestHasTree opt) (hs : opt.best.isSome = true) :
+    opt.tree.isSome = true := by
+  cases hbo : opt.best with
+  | none => rw [hbo] at hs; cases hs
+  | some b => simp only [HState.tree, hbo]; exact hb b hbo
+
+theorem frameGood_of_goodTree {c : QTree} (h : GoodTree c) : FrameGood (frameOf c) := by
+  cases h with
+  | node h1 h2 h3 => exact ⟨h1, h2, h3⟩
+
+theorem stepTop_live (cfg : NCfg) (hreg : cfg.registerFirst = false)
+    (hco : ∀ o, cfg.cacheOnly o = false) (t n : Nat) (objs : Nat → NRState) (fr : Frame)
+    (h : TopLive t (objs fr.obj) fr) : LiveOk t objs fr (stepTop cfg t n fr (objs fr.obj)) := by
+  unfold stepTop
+  cases hpc : fr.pc with
+  | start =>
+    simp only [TopLive, hpc] at h
+    simp only
+    cases fr.kind with
+    | reusable => simp only [LiveOk, TopLive]; exact ⟨⟨h, cacheHas_isNone _ _⟩, trivial⟩
+    | autoCached =>
+      simp only
+      split
+      · simp only [LiveOk, TopLive]; exact ⟨h, trivial⟩
+      · simp only [LiveOk, Option.isSome_some]
+    | autoPlain =>
+      simp only
+      split
+      · simp only [LiveOk, TopLive]; exact ⟨h, trivial⟩
+      · simp only [LiveOk, Option.isSome_some]
+  | gotOpt =>
+    simp only [TopLive, hpc] at h
+    simp only
+    cases fr.kind with
+    | autoPlain =>
+      simp only [LiveOk, TopLive]
+      exact ⟨⟨⟨bestHasTree_init, h.2, Or.inr h.1⟩, by intro hh; cases hh⟩, trivial⟩
+    | reusable => simp only [LiveOk, TopLive]; exact ⟨⟨h, cacheHas_isNone _ _⟩, trivial⟩
+    | autoCached => simp only [LiveOk, TopLive]; exact ⟨⟨h, cacheHas_isNone _ _⟩, trivial⟩
+  | hashed m =>
+    simp only [TopLive, hpc] at h
+    simp only [hco, Bool.false_eq_true, if_false, hreg]
+    split
+    · simp only [LiveOk, TopLive]
+      exact ⟨⟨⟨bestHasTree_init, h.1.2, Or.inr h.1.1⟩, h.2⟩, trivial⟩
+    · rename_i hcond
+      have hm : m = false := by cases m <;> simp_all
+      have hc := h.2 hm
+      split
+      · rename_i hnone; rw [hnone] at hc; cases hc
+      · simp only [LiveOk, TopLive]; exact ⟨trivial, trivial⟩
+  | searching m id opt todo =>
+    simp only [TopLive, hpc] at h
+    obtain ⟨⟨hbest, htodo, hor⟩, hcache⟩ := h
+    simp only
+    split
+    · rename_i c cs s tr rest
+      simp only [LiveOk]
+      refine ⟨⟨m, id, opt, _, rfl, ⟨hbest, ⟨?_, ?_⟩, ?_⟩, hcache⟩, ?_, trivial⟩
+      · intro tp htp hfin
+        rcases List.mem_cons.1 htp with rfl | htp
+        · exact htodo.1 (c :: cs, s, tr) List.mem_cons_self hfin
+        · exact htodo.1 tp (List.mem_cons_of_mem _ htp) hfin
+      · intro tp htp c' hc'
+        rcases List.mem_cons.1 htp with rfl | htp
+        · exact htodo.2 (c :: cs, s, tr) List.mem_cons_self c' (List.mem_cons_of_mem _ hc')
+        · exact htodo.2 tp (List.mem_cons_of_mem _ htp) c' hc'
+      · rcases hor with hb | ⟨tp, htp, hfin⟩
+        · exact Or.inl hb
+        · right
+          rcases List.mem_cons.1 htp with rfl | htp
+          · exact ⟨(cs, s, tr), List.mem_cons_self, hfin⟩
+          · exact ⟨tp, List.mem_cons_of_mem _ htp, hfin⟩
+      · exact htodo.2 (c :: cs, s, tr) List.mem_cons_self c List.mem_cons_self
+    · rename_i s tr rest
+      have hst := step_best fr.q opt s tr hbest (htodo.1 ([], s, tr) List.mem_cons_self)
+      simp only [LiveOk, TopLive]
+      refine ⟨⟨⟨hst.1, todoOk_tail htodo, ?_⟩, ?_⟩, trivial⟩
+      · rcases hor with hb | ⟨tp, htp, hfin⟩
+        · exact Or.inl (hst.2 (Or.inl hb))
+        · rcases List.mem_cons.1 htp with rfl | htp
+          · exact Or.inl (hst.2 (Or.inr hfin))
+          · exact Or.inr ⟨tp, htp, hfin⟩
+      · intro hm
+        rw [writeThrough_cache]
+        exact hcache hm
+    · have hsome : opt.best.isSome = true := by
+        rcases hor with hb | ⟨tp, htp, _⟩
+        · exact hb
+        · cases htp
+      have htree := tree_of_best hbest hsome
+      cases fr.kind with
+      | autoPlain => simp only [LiveOk]; exact htree
+      | reusable =>
+        simp only
+        split
+        · rename_i hnone; rw [hnone] at htree; cases htree
+        · simp only [LiveOk, TopLive]; exact ⟨⟨htree, hcache⟩, trivial⟩
+      | autoCached =>
+        simp only
+        split
+        · rename_i hnone; rw [hnone] at htree; cases htree
+        · simp only [LiveOk, TopLive]; exact ⟨⟨htree, hcache⟩, trivial⟩
+  | ran m id opt =>
+    simp only [TopLive, hpc] at h
+    simp only [hreg, Bool.false_eq_true, if_false, LiveOk, TopLive]
+    exact ⟨⟨h.2, ⟨id, opt, by simp, h.1⟩⟩, trivial⟩
+  | stored m con =>
+    simp only [TopLive, hpc] at h
+    simp only
+    split
+    · rename_i hcond
+      have hm : m = false := by cases m <;> simp_all
+      have hc := h.1 hm
+      split
+      · rename_i hnone; rw [hnone] at hc; cases hc
+      · simp only [LiveOk, TopLive]; exact ⟨h.2, trivial⟩
+    · simp only [LiveOk, TopLive]; exact ⟨h.2, trivial⟩
+  | compare con old =>
+    simp only [TopLive, hpc] at h
+    simp only
+    split
+    · simp only [LiveOk, TopLive]; exact ⟨h, trivial⟩
+    · simp only [LiveOk, TopLive]; exact ⟨trivial, trivial⟩
+  | «have» b con =>
+    simp only
+    split
+    · simp only [LiveOk, Option.isSome_some]
+    · cases b with
+      | true =>
+        simp only [TopLive, hpc] at h
+        obtain ⟨id, opt, hs, ht⟩ := h
+        simp only [if_true, hs, LiveOk]
+        exact ht
+      | false => simp only [Bool.false_eq_true, if_false, LiveOk, Option.isSome_some]
+
+/-- cache entries are never removed -/
+theorem stepTop_cache_mono (cfg : NCfg) (t n : Nat) (fr : Frame) (r : NRState) (k : Nat)
+    (h : (r.cache k).isSome = true) : ((robj r (stepTop cfg t n fr r)).cache k).isSome = true := by
+  unfold stepTop
+  cases fr.pc with
+  | start => simp only; cases fr.kind <;> simp only <;> (try split) <;> exact h
+  | gotOpt => simp only; cases fr.kind <;> exact h
+  | hashed m =>
+    simp only
+    split
+    · split
+      · exact h
+      · simp only [robj]; split <;> exact h
+    · split <;> exact h
+  | searching m id opt todo =>
+    simp only
+    split
+    · exact h
+    · simp only [robj, writeThrough_cache]; exact h
+    · cases fr.kind <;> simp only <;> (try split) <;> exact h
+  | ran m id opt => simp only [robj]; split <;> exact h
+  | stored m con =>
+    simp only
+    split
+    · split <;> exact h
+    · simp only [robj, updFn]; split <;> simp_all
+  | compare con old =>
+    simp only
+    split
+    · simp only [robj, updFn]; split <;> simp_all
+    · exact h
+  | «have» b con =>
+    simp only
+    split
+    · exact h
+    · split
+      · split <;> exact h
+      · exact h
+
+theorem stepThread_cache_mono (cfg : NCfg) (t : Nat) (th : NThread) (objs : Nat → NRState)
+    (o k : Nat) (h : ((objs o).cache k).isSome = true) :
+    (((stepThread cfg t th objs).2.1 o).cache k).isSome = true := by
+  unfold stepThread
+  cases th.stack with
+  | nil => simp only; cases th.queue <;> exact h
+  | cons fr below =>
+    simp only
+    have hm := stepTop_cache_mono cfg t th.nalloc fr (objs fr.obj) k
+    cases hs : stepTop cfg t th.nalloc fr (objs fr.obj) with
+    | cont l fr' r' n' =>
+      rw [hs] at hm; simp only [robj] at hm
+      simp only
+      by_cases ho : o = fr.obj
+      · subst ho; rw [updFn_same]; exact hm h
+      · rw [updFn_other _ _ _ _ ho]; exact h
+    | push fr' c => exact h
+    | pop l res r' =>
+      rw [hs] at hm; simp only [robj] at hm
+      simp only
+      by_cases ho : o = fr.obj
+      · subst ho; rw [updFn_same]; exact hm h
+      · rw [updFn_other _ _ _ _ ho]; exact h
+
+theorem cacheHas_mono {r r' : NRState} {q : Query} {m : Bool}
+    (hmono : ∀ k, (r.cache k).isSome = true → (r'.cache k).isSome = true) (h : CacheHas r q m) :
+    CacheHas r' q m := fun hm => hmono _ (h hm)
+
+theorem topLive_frame (t : Nat) (r r' : NRState) (fr : Frame) (hs : r'.subopts t = r.subopts t)
+    (hmono : ∀ k, (r.cache k).isSome = true → (r'.cache k).isSome = true)
+    (h : TopLive t r fr) : TopLive t r' fr := by
+  unfold TopLive RegLive at *
+  cases hpc : fr.pc with
+  | start => simpa [hpc] using h
+  | gotOpt => simpa [hpc] using h
+  | hashed m => rw [hpc] at h; exact ⟨h.1, cacheHas_mono hmono h.2⟩
+  | searching m id opt todo => rw [hpc] at h; exact ⟨h.1, cacheHas_mono hmono h.2⟩
+  | ran m id opt => rw [hpc] at h; exact ⟨h.1, cacheHas_mono hmono h.2⟩
+  | stored m con => rw [hpc] at h; exact ⟨cacheHas_mono hmono h.1, by rw [hs]; exact h.2⟩
+  | compare con old => rw [hpc] at h; simp only; rw [hs]; exact h
+  | «have» b con =>
+    cases b with
+    | true => rw [hpc] at h; simp only; rw [hs]; exact h
+    | false => simp only
+
+theorem belowLive_mono {objs objs' : Nat → NRState} {fr : Frame}
+    (hmono : ∀ o k, ((objs o).cache k).isSome = true → ((objs' o).cache k).isSome = true)
+    (h : BelowLive objs fr) : BelowLive objs' fr := by
+  obtain ⟨m, id, opt, todo, hpc, hs, hc⟩ := h
+  exact ⟨m, id, opt, todo, hpc, hs, cacheHas_mono (hmono fr.obj) hc⟩
+
+theorem topLive_of_below {t : Nat} {objs : Nat → NRState} {fr : Frame} (h : BelowLive objs fr) :
+    TopLive t (objs fr.obj) fr := by
+  obtain ⟨m, id, opt, todo, hpc, hs, hc⟩ := h
+  simp only [TopLive, hpc]
+  exact ⟨hs, hc⟩
+
+structure LLocalInv (t : Nat) (th : NThread) (objs : Nat → NRState) : Prop where
+  noerr : ∀ r ∈ th.results, r.got.isSome = true
+  queue : ∀ c ∈ th.queue, GoodTree c
+  stack : ∀ fr below, th.stack = fr :: below →
+    TopLive t (objs fr.obj) fr ∧ ∀ f ∈ below, BelowLive objs f
+
+def LInv (s : NSys) : Prop := ∀ t, LLocalInv t (s.threads t) s.objs
+
+theorem stepThread_live (cfg : NCfg) (hreg : cfg.registerFirst = false)
+    (hco : ∀ o, cfg.cacheOnly o = false) (t : Nat) (th : NThread) (objs : Nat → NRState)
+    (hinv : LLocalInv t th objs) :
+    LLocalInv t (stepThread cfg t th objs).1 (stepThread cfg t th objs).2.1 := by
+  have hmono := stepThread_cache_mono cfg t th objs
+  obtain ⟨hne, hq, hst⟩ := hinv
+  unfold stepThread at hmono ⊢
+  cases hstack : th.stack with
+  | nil =>
+    simp only
+    cases hqq : th.queue with
+    | nil =>
+      simp only
+      exact ⟨hne, (by intro c hc; rw [hqq] at hc; cases hc),
+        (by intro fr below hh; rw [hstack] at hh; cases hh)⟩
+    | cons c rest =>
+      simp only
+      rw [hqq] at hq
+      refine ⟨hne, fun c' hc' => hq c' (List.mem_cons_of_mem _ hc'), ?_⟩
+      intro fr below hh
+      simp only [List.cons.injEq] at hh
+      obtain ⟨rfl, rfl⟩ := hh
+      refine ⟨?_, by intro f hf; cases hf⟩
+      have hg := frameGood_of_goodTree (hq c List.mem_cons_self)
+      cases c with
+      | node q kind obj v trials => simpa [TopLive, frameOf] using hg
+  | cons fr below =>
+    rw [hstack] at hmono
+    simp only at hmono
+    obtain ⟨htop, hbelow⟩ := hst fr below hstack
+    have hok := stepTop_live cfg hreg hco t th.nalloc objs fr htop
+    simp only
+    cases hs : stepTop cfg t th.nalloc fr (objs fr.obj) with
+    | cont l fr' r' n' =>
+      rw [hs] at hok hmono
+      simp only [LiveOk] at hok
+      simp only at hmono ⊢
+      refine ⟨hne, hq, ?_⟩
+      intro f bl hh
+      simp only [List.cons.injEq] at hh
+      obtain ⟨rfl, rfl⟩ := hh
+      refine ⟨?_, fun g hg => belowLive_mono hmono (hbelow g hg)⟩
+      rw [hok.2, updFn_same]
+      exact hok.1
+    | push fr' c =>
+      rw [hs] at hok
+      simp only [LiveOk] at hok
+      simp only
+      refine ⟨hne, hq, ?_⟩
+      intro f bl hh
+      simp only [List.cons.injEq] at hh
+      obtain ⟨rfl, rfl⟩ := hh
+      refine ⟨?_, ?_⟩
+      · have hg := frameGood_of_goodTree hok.2.1
+        cases c with
+        | node q kind obj v trials => simpa [TopLive, frameOf] using hg
+      · intro g hg
+        rcases List.mem_cons.1 hg with rfl | hg
+        · exact hok.1
+        · exact hbelow g hg
+    | pop l res r' =>
+      rw [hs] at hok hmono
+      simp only [LiveOk] at hok
+      simp only at hmono ⊢
+      refine ⟨?_, hq, ?_⟩
+      · intro r hr
+        rcases List.mem_append.1 hr with hr | hr
+        · exact hne r hr
+        · simp only [List.mem_singleton] at hr; subst hr; exact hok
+      · intro f bl hh
+        have hh' : below = f :: bl := hh
+        have hf : BelowLive objs f := hbelow f (by rw [hh']; exact List.mem_cons_self)
+        refine ⟨topLive_of_below (belowLive_mono hmono hf), ?_⟩
+        intro g hg
+        exact belowLive_mono hmono (hbelow g (by rw [hh']; exact List.mem_cons_of_mem _ hg))
+
+theorem lstep_inv (cfg : NCfg) (hreg : cfg.registerFirst = false)
+    (hco : ∀ o, cfg.cacheOnly o = false) (s : NSys) (t : Nat) (hinv : LInv s) :
+    LInv (ReuseNest.step cfg s t) := by
+  intro t'
+  unfold ReuseNest.step
+  by_cases h : t' = t
+  · subst h
+    simp only [updFn_same]
+    exact stepThread_live cfg hreg hco t' _ _ (hinv t')
+  · obtain ⟨hne, hq, hst⟩ := hinv t'
+    simp only [updFn_other _ _ _ _ h]
+    refine ⟨hne, hq, ?_⟩
+    intro fr below hh
+    obtain ⟨htop, hbelow⟩ := hst fr below hh
+    have hmono := stepThread_cache_mono cfg t (s.threads t) s.objs
+    exact ⟨topLive_frame t' _ _ fr (stepThread_subopts_other cfg t t' _ _ h fr.obj) (hmono fr.obj) htop,
+      fun g hg => belowLive_mono hmono (hbelow g hg)⟩
+
+/-- **nested_no_spurious_errors** — for every schedule, any number of threads and any nesting: if
+    every sub-search anywhere in the nesting trees has a successful trial (and successful trials
+    carry trees) and `cache_only` is off, no call — outer or nested, `search` or `__call__` — ever
+    raises: `last_opt` is never `None` when it is read, a cache entry seen by `hash_query` is still
+    there when it is fetched (also after the nested queries of the own sub-search and the traffic
+    of other threads), and every sub-search ends with a tree.  With `nested_isolation`: every call
+    returns a tree of its own contraction. -/
+theorem nested_no_spurious_errors (cfg : NCfg) (hreg : cfg.registerFirst = false)
+    (hco : ∀ o, cfg.cacheOnly o = false) (queues : Nat → List QTree)
+    (hgood : ∀ t, ∀ c ∈ queues t, GoodTree c) (sched : List Nat) (t : Nat) (r : Res)
+    (h : r ∈ ((ReuseNest.runSched cfg (NSys.start queues) sched).threads t).results) :
+    r.got.isSome = true := by
+  have key : ∀ (sched : List Nat) (s : NSys), LInv s → LInv (ReuseNest.runSched cfg s sched) := by
+    intro sched
+    induction sched with
+    | nil => intro s hs; exact hs
+    | cons t0 rest ih => intro s hs; exact ih _ (lstep_inv cfg hreg hco s t0 hs)
+  have hstart : LInv (NSys.start queues) := by
+    intro t
+    exact ⟨by intro r hr; simp [NSys.start] at hr, hgood t, by intro fr below hh; simp [NSys.start] at hh⟩
+  exact (key sched _ hstart t).noerr r h
+
+/-- the hypotheses are satisfiable: the nesting trees of the examples are good -/
+example : GoodTree outer1 := by
+  refine .node ⟨_, List.mem_cons_self, rfl⟩ (by intro tp htp _; simp [ntr] at htp; rcases htp with rfl | rfl <;> rfl) ?_
+  intro tp htp c hc
+  simp only [List.mem_cons, List.not_mem_nil, or_false] at htp
+  rcases htp with rfl | rfl
+  · simp only [List.mem_singleton] at hc
+    subst hc
+    exact .node ⟨_, List.mem_cons_self, rfl⟩ (by intro tp htp _; simp [ntr] at htp; subst htp; rfl)
+      (by intro tp htp c hc; simp at htp; subst htp; cases hc)
+  · cases hc
+
 
 end Cotengra.C16
